@@ -219,6 +219,8 @@ pub fn configs(prop: &str, thorough: bool) -> Vec<(Cfg, Option<usize>)> {
                 ("A0,B1,C2", vec![(0, 0), (1, 1), (2, 2)]),
                 ("A1,A2,B1(repeated)", vec![(0, 1), (0, 2), (1, 1)]),
                 ("A0,B1,B2(repeated)", vec![(0, 0), (1, 1), (1, 2)]),
+                ("A1,B1,A2(repeated-apart)", vec![(0, 1), (1, 1), (0, 2)]),
+                ("A3,B1,C1,A1(repeated-apart)", vec![(0, 3), (1, 1), (2, 1), (0, 1)]),
                 ("A1(single)", vec![(0, 1)]),
                 ("A0,B0,C1", vec![(0, 0), (1, 0), (2, 1)]),
             ] {
@@ -317,6 +319,34 @@ pub fn configs(prop: &str, thorough: bool) -> Vec<(Cfg, Option<usize>)> {
                             out.push((c, None));
                         }
                     }
+                }
+            }
+            // a rejection tipped by an Abstain (shrinking base): A proposes, B(3) votes No, C(2) abstains
+            for (tn, th) in [("pct51", Th::Pct(pct(510_000_000))), ("q51-50", Th::Quorum { t: pct(510_000_000), q: pct(500_000_000) })] {
+                for cw20 in [false, true] {
+                    if !thorough && (cw20 || tn != "pct51") {
+                        continue;
+                    }
+                    let mut c = Cfg::base(&format!("C15/A1,B3,C2/{tn}/{}/refund=true/all-vote-kinds", if cw20 { "cw20" } else { "native" }), true);
+                    c.props = p.clone();
+                    c.voters = vec![(0, 1), (1, 3), (2, 2)];
+                    c.th = th;
+                    c.deposit = if cw20 { Dep::Cw20 { amount: 2, refund: true } } else { Dep::Native { amount: 2, refund: true } };
+                    c.max_props = 1;
+                    c.proposers = vec![0];
+                    c.votes = vec![VoteA::Yes, VoteA::No, VoteA::Abstain, VoteA::Veto];
+                    c.voters_acting = vec![1, 2];
+                    c.executors = vec![3];
+                    c.closers = vec![0, 3];
+                    c.blocks = 3;
+                    c.purse = 4;
+                    if cw20 {
+                        c.allow_amts = vec![2];
+                        c.max_allow = 2;
+                    } else {
+                        c.funds = vec![vec![(0, 2)]];
+                    }
+                    out.push((c, None));
                 }
             }
             // a proposal whose own message spends the multisig's funds (shared pool)
